@@ -48,7 +48,7 @@ def ob_hist_rules(m1: int, dom1: int, h1: int, m2: int, dom2: int, h2: int, pm1:
 
 # ------------------------------------------------------------------ API-level history / option pool
 
-POOL = ["tomorrow 8pm", "Zahnarzt Morgen 9 Uhr", "zahnarzt morgen 9 uhr", "9-5", "friday morning", "gargelbabel", "lunch on friday", "8:30 h pm", "29.2.", "meet #tag monday"]
+POOL = ["tomorrow 8pm", "Zahnarzt Morgen 9 Uhr", "zahnarzt morgen 9 uhr", "9-5", "friday morning", "gargelbabel", "meet monday", "8:30 h pm", "29.2.", "meet #tag monday"]
 TS_POOL = [datetime(2018, 3, 7, 12, 43), datetime(2023, 1, 31, 23, 59, 59), datetime(2024, 2, 29, 0, 0)]
 DEPTHS = [0, 1, 10]
 
@@ -285,3 +285,69 @@ def ob_score_hist(ma: int, mb: int, ma2: int, mb2: int, lr: int, final1: bool, f
     finally:
         NS.math = old
     return v1 == (mb - ma) + (1000 if final1 else 1) * lr and v2 == (mb2 - ma2) + (1000 if final2 else 1) * lr and v3 == (mb - ma) + lr
+
+
+LSE_POOL = [-5000.0, -1000.0, -800.0, -745.5, -30.0, -1.0, 0.0]
+
+
+def ob_lse_range(i: int, j: int) -> bool:
+    """
+    pre: 0 <= i < 7 and 0 <= j < 7
+    post: _
+    """
+    import ctparse.nb_estimator as NB
+    with NoTracing():
+        a, b = LSE_POOL[_pick(i, 7)], LSE_POOL[_pick(j, 7)]
+        try:
+            v = NB._log_sum_exp([a, b])
+        except Exception:
+            return False
+        return math.isfinite(v) and max(a, b) - 1e-9 <= v <= max(a, b) + math.log(2) + 1e-9
+
+
+# ------------------------------------------------------------------ C14 at API level
+
+STREAM_TEXTS = ["8h", "tomorrow 8pm", "um 20h", "from 5 to 16 aug", "friday morning", "gargelbabel", "8uhr - 13uhr", "9-5"]
+
+
+def api_stream_check(ti, prior, lat, tsi):
+    text, ts = STREAM_TEXTS[ti], TS_POOL[tsi]
+    if prior:
+        list(C.ctparse_gen(text, ts=ts, timeout=0, latent_time=(prior == 1)))
+    st = [c for c in C.ctparse_gen(text, ts=ts, timeout=0, latent_time=lat) if c is not None]
+    single = C.ctparse(text, ts=ts, timeout=0, latent_time=lat)
+    if single is None:
+        return False, "ctparse returned None"
+    if not st:
+        return (True, "") if single.resolution is None else (False, "empty stream but a resolution")
+    if single.resolution is None:
+        return False, "stream not empty but empty resolution"
+    if not all(isinstance(c.score, float) and math.isfinite(c.score) for c in st):
+        return False, "non-finite score"
+    best = max(c.score for c in st)
+    if single.score != best:
+        return False, "ctparse(%r) returned score %r, the best streamed score is %r" % (text, single.score, best)
+    if not any(str(c.resolution) == str(single.resolution) and c.production == single.production and c.score == single.score
+               and c.subject == single.subject and list(c.labels) == list(single.labels) for c in st):
+        return False, "the result of ctparse(%r) is not one of the streamed candidates" % text
+    if not lat:
+        last = {}
+        for c in st:
+            k = str(c.resolution)
+            if k in last and not (last[k] < c.score):
+                return False, "%r streamed again with score %r after %r (latent_time off, earlier call: %s)" % (k, c.score, last[k], prior)
+            last[k] = c.score
+    return True, ""
+
+
+def ob_api_stream(ti: int, prior: int, lat: bool, tsi: int) -> bool:
+    """
+    pre: 0 <= ti < 8 and 0 <= prior <= 2 and 0 <= tsi <= 1
+    post: _
+    """
+    with NoTracing():
+        return api_stream_check(_pick(ti, 8), _pick(prior, 3), bool(_pick(lat, 2)), _pick(tsi, 2))[0]
+
+
+def why_api_stream(ti, prior, lat, tsi):
+    return api_stream_check(ti, prior, bool(lat), tsi)[1]
